@@ -128,7 +128,7 @@ func (e *Engine) callFunction(f *frame, fn *ssa.Function, args []Val, bindings [
 			}
 		case "verifSnap", "verifSnapPtrs":
 			if e.isSpecFunc(fn) {
-				ref := e.snapshotBytes(f.st, args[0])
+				ref := e.snapshotBytes(f.st, args[0], true)
 				return Val{T: args[0].T, C: []*smt.Term{ref, args[0].off(), args[0].ln(), args[0].ln()}, Bound: args[0].Bound}
 			}
 		}
@@ -402,6 +402,14 @@ func (e *Engine) evalModifies(fc *FnContract, args []Val, st *State) []frameLoc 
 				locs = append(locs, frameLoc{kind: "range", text: ml.Text + " (backing array)", ref: bv.ref(), keyPfx: "arr:uint8/",
 					lo: e.X.Const(0, 64), hi: e.X.BVAdd(bv.off(), bv.cp())})
 			}
+		case "whole":
+			u, ok := base.T.Underlying().(*types.Slice)
+			if !ok {
+				bail("modifies %s: base is not a slice", ml.Text)
+			}
+			fl.ref = base.ref()
+			fl.kind = "deref"
+			fl.keyPfx = "arr:" + typeKey(u.Elem()) + "/"
 		case "all", "range":
 			var off, ln *smt.Term
 			switch u := base.T.Underlying().(type) {
@@ -1005,7 +1013,8 @@ func (e *Engine) siteIndex(f *frame, pos token.Pos) int {
 // isFresh: the object (or the object an embedded array belongs to) was allocated at or after base.
 // References are below 2^28; bits 28..31 select an array embedded in a struct (see subRef).
 func (e *Engine) isFresh(base, ref *smt.Term) *smt.Term {
-	return e.X.Ule(base, e.X.BVAnd(ref, e.X.Const(0x0fffffff, 32)))
+	m := e.X.BVAnd(ref, e.X.Const(0x0fffffff, 32))
+	return e.X.And(e.X.Ule(base, m), e.X.Ule(m, e.X.Const(0x07ffffff, 32)))
 }
 
 // subRef: the reference of the k-th array-typed field embedded in the struct object ref.
